@@ -3,6 +3,7 @@
   Imports model files only (core-only), so it links as a native executable.
 -/
 import Rend.Server.Loop
+import Rend.Wire.Decode
 import Rend.Handlers.Std
 import Rend.Handlers.Chunked
 import Rend.Gen.Asm
@@ -25,6 +26,7 @@ structure St where
   run   : RunSt := { w := {} }
   now   : Nat := 0
   fault : Option Fault := none
+  spec  : Store := Store.empty      -- the single map of the specification (oracle)
 
 def fnv64 (b : Bytes) : Nat :=
   b.foldl (fun h c => ((h ^^^ c.toNat) * 1099511628211) % 18446744073709551616) 14695981039346656037
@@ -78,6 +80,17 @@ def confOf (c : ConnDesc) (now : Nat) : Conf :=
   let base := c.orca.step h1 h2
   { proto := c.proto, orca := if c.locked then Locked.step c.bits base else base }
 
+def soutStr : SOut → String
+  | .ok => "ok"
+  | .fail => "fail"
+  | .gets rs => "gets[" ++ ",".intercalate (rs.map fun (g, r) =>
+      match r with
+      | some (f, d) => s!"{hexOf g.key}:hit({f},{hexOf d})"
+      | none => s!"{hexOf g.key}:miss") ++ "]"
+  | .gat (some (f, d)) => s!"gat-hit({f},{hexOf d})"
+  | .gat none => "gat-miss"
+  | .other => "other"
+
 def tierOf (s : String) : Tier := if s == "L2" then .l2 else .l1
 
 def itemStr (o : Option Item) : String :=
@@ -121,6 +134,28 @@ def step (st : St) (line : String) : St × List String :=
         s!"trace1 {traceLine .l1 rs.trace}",
         s!"trace2 {traceLine .l2 rs.trace}",
         s!"locks {locks}"])
+  | ["oracle", cid, cmdHex, outHex] =>
+    match st.conns.find? (·.id == cid) with
+    | none => (st, ["bad-conn"])
+    | some c =>
+      let pr := Server.parse c.proto (unhex cmdHex)
+      match pr.cmd with
+      | none => (st, ["oracle skip unparsed"])
+      | some cmd =>
+        let (spec', exp) := Spec.step st.now st.spec cmd
+        let st' := { st with spec := spec' }
+        let out := unhex outHex
+        let verdict : String :=
+          match c.proto with
+          | .bin =>
+            match Wire.decodeBin out with
+            | none => "MISMATCH undecodable-reply"
+            | some fs => if Wire.binMatches cmd exp fs then "ok" else s!"MISMATCH expected {soutStr exp}"
+          | .text =>
+            match Wire.decodeText out with
+            | none => "MISMATCH undecodable-reply"
+            | some its => if Wire.textMatches cmd exp its then "ok" else s!"MISMATCH expected {soutStr exp}"
+        (st', [("oracle " ++ verdict).replace "\n" " "])
   | "dump" :: tier :: keys =>
     let t := tierOf tier
     let s := st.run.w.get t
